@@ -1,6 +1,6 @@
 (* Properties_C15.v — C15: the slot handler invokes the right slot once, and only with the full body. *)
 From Coq Require Import String List Ascii ZArith.
-From QH Require Import Bytes Value HeaderMap Parser SocketM SockProofs C02Proofs SlotHandler SlotProofs.
+From QH Require Import Bytes Value HeaderMap Parser SocketM SockProofs C02Proofs SlotHandler SlotProofs Interleave.
 Import ListNotations.
 Local Open Scope Z_scope.
 
@@ -56,3 +56,12 @@ Theorem C15_full_body_at_invocation : forall e N id s seg,
        In (EAvail N) (snd r).
 Proof. exact waiting_feed. Qed.
 Print Assumptions C15_full_body_at_invocation.
+
+(* several connections waiting for their bodies at once, segments interleaved in any order: each connection's slot is
+   invoked (or not) exactly as it would be alone - the bytes of one request never complete another one's body *)
+Theorem C15_connections_independent : forall e regs sched ss i s,
+  nth_error ss i = Some s ->
+  proj ev i (irun sock op ev (step e (slot_pol regs)) ss sched) =
+  run sock op ev (step e (slot_pol regs)) s (ops_of op i sched).
+Proof. intros e regs. exact (interleaving_independent sock op ev (step e (slot_pol regs))). Qed.
+Print Assumptions C15_connections_independent.
